@@ -4,6 +4,8 @@
 package service
 
 import (
+	"io"
+
 	"github.com/metrico/qryn/reader/logql/logql_transpiler_v2/shared"
 	"github.com/metrico/qryn/reader/model"
 	"github.com/metrico/qryn/zzverif/vlib"
@@ -18,9 +20,15 @@ type vsRow struct {
 
 // vsFeed sends rows cut into channel batches at nondeterministic points (empty batches included).
 func vsFeed(rows []vsRow, labels map[uint64]map[string]string, out chan []shared.LogEntry) {
+	// the scanners mark the end of a result set with an entry carrying io.EOF; regrouping stages may emit it
+	// before groups that still hold rows: optionally one early marker in front of the last row, always one at the very end
+	early := len(rows) // none
+	if len(rows) > 0 && vrt.Bool("early-end-marker-before-the-last-row") {
+		early = len(rows) - 1
+	}
 	go func() {
 		var batch []shared.LogEntry
-		for _, r := range rows {
+		for i, r := range rows {
 			if vrt.Bool("cut-batch-here") {
 				out <- batch
 				batch = nil
@@ -28,8 +36,12 @@ func vsFeed(rows []vsRow, labels map[uint64]map[string]string, out chan []shared
 					out <- nil
 				}
 			}
+			if i == early {
+				batch = append(batch, shared.LogEntry{Err: io.EOF})
+			}
 			batch = append(batch, shared.LogEntry{TimestampNS: r.ts, Fingerprint: r.fp, Labels: labels[r.fp], Message: r.msg})
 		}
+		batch = append(batch, shared.LogEntry{Err: io.EOF})
 		out <- batch
 		close(out)
 	}()
